@@ -1008,3 +1008,40 @@ NP('n_ref_handle_timer', ALL, 'R5: 11 behaviour-preserving refactors of handle_t
 NP('n_ref_send_message', ALL, 'R6: 12 behaviour-preserving refactors of send_message / estimate_feed_capacity', 'selftest/neutral/R6.diff')
 NP('n_ref_identity_fns', ALL, 'R7: 14 behaviour-preserving refactors of the identity/connection-state functions', 'selftest/neutral/R7.diff')
 NP('n_ref_apply_broadcast_fns', ALL, 'R8: 10 behaviour-preserving refactors of apply_update/add_broadcast/set_config/...', 'selftest/neutral/R8.diff')
+
+N('n_new_pub_getter', ALL, 'a new public read-only accessor (a new entry point, analysed like any other function)',
+  (LIB, '''    pub const fn num_members(&self) -> usize {
+        self.members.num_active()
+    }
+''', '''    pub const fn num_members(&self) -> usize {
+        self.members.num_active()
+    }
+
+    /// Whether this instance currently considers itself part of a cluster.
+    pub fn is_connected(&self) -> bool {
+        self.connection_state == ConnectionState::Connected
+    }
+'''))
+N('n_new_private_unused_helper', ALL, 'a new private helper that nothing calls yet (dead code allowed)',
+  (LIB, '''    pub const fn num_members(&self) -> usize {
+        self.members.num_active()
+    }
+''', '''    pub const fn num_members(&self) -> usize {
+        self.members.num_active()
+    }
+
+    #[allow(dead_code)]
+    fn has_pending_updates(&self) -> bool {
+        !self.updates.is_empty() || !self.custom_broadcasts.is_empty()
+    }
+'''))
+
+# round 2 of refactors by sub-agents (bolder instructions, see DESIGN 10.6)
+NP('n_ref2_config_payload_identity', ALL, 'R9: 9 refactors of config.rs / payload.rs / identity.rs', 'selftest/neutral/R9.diff')
+NP('n_ref2_codecs_error', ALL, 'R10: 11 refactors of the bundled codecs and error.rs', 'selftest/neutral/R10.diff')
+NP('n_ref2_handle_data_per_kind', ALL, 'R11: handle_data split into one method per message kind', 'selftest/neutral/R11.diff')
+NP('n_ref2_handle_timer_per_variant', ALL, 'R12: handle_timer split into one method per timer variant, guard clauses', 'selftest/neutral/R12.diff')
+NP('n_ref2_send_message_steps', ALL, 'R13: send_message split into begin_packet/append_*/restore steps', 'selftest/neutral/R13.diff')
+NP('n_ref2_apply_fns', ALL, 'R14: 11 refactors of apply_many/apply_update/handle_apply_summary/...', 'selftest/neutral/R14.diff')
+NP('n_ref2_member_loops', ALL, 'R15: member.rs iterator chains <-> explicit loops, tuple matches', 'selftest/neutral/R15.diff')
+NP('n_ref2_shared_fill_probe', ALL, 'R16: fill/fill_with_len_prefix share one helper; Probe guard clauses', 'selftest/neutral/R16.diff')
